@@ -53,6 +53,16 @@ func setGlobals() {
 	constants.MinUnhaltDurationInMomentums = unhaltDuration
 	constants.MinGuardians = minGuardians
 	constants.InitialBridgeAdministrator = g.User5.Address
+	// time windows rescaled so that "matured" states are one cheap 26-hour jump away (the consensus module needs ~0.16 s
+	// per simulated day of missed slots): lock 20 h + revoke window 10 h for pillars and sentinels (repository: 83+7 and
+	// 27+3 days), staking unit 2 h (repository: 30 days). Reward epochs keep their 24 h.
+	constants.PillarEpochLockTime = 20 * 3600
+	constants.PillarEpochRevokeTime = 10 * 3600
+	constants.SentinelLockTimeWindow = 20 * 3600
+	constants.SentinelRevokeTimeWindow = 10 * 3600
+	constants.StakeTimeUnitSec = 2 * 3600
+	constants.StakeTimeMinSec = constants.StakeTimeUnitSec
+	constants.StakeTimeMaxSec = constants.StakeTimeUnitSec * 12
 	// no spork is implemented until the worker's chain creates it (ids are hashes of the creating send blocks)
 	for k := range types.ImplementedSporksMap {
 		delete(types.ImplementedSporksMap, k)
